@@ -8,9 +8,12 @@ from . import c06
 
 ID = 'C07'
 # fixed witnesses: a base type occurring twice (no AsRef), a second-level type with a second base, name clashes
-ENGINE_B = {'template': 't_inherit', 'kinds': ['forward_', 'asref_'], 'max_quick': 12, 'max_thorough': 64,
+ENGINE_B = [{'template': 't_inherit', 'kinds': ['forward_', 'asref_'], 'max_quick': 12, 'max_thorough': 64,
             'fixed': [[8, 1, 1, 1, 0, 0, 1, 0, 1, 1, 1, 1, 1, 0, 0, 1, 0], [8, 1, 1, 1, 0, 0, 1, 0, 1, 1, 0, 0, 1, 0, 0, 0, 1],
-                      [8, 1, 1, 1, 1, 0, 1, 0, 1, 1, 1, 1, 1, 0, 1, 0, 0]]}
+                      [8, 1, 1, 1, 1, 0, 1, 0, 1, 1, 1, 1, 1, 0, 1, 0, 0]]},
+            # base fields that are themselves private: forwarders run (inside the module) and are reachable from outside it
+            {'template': 't_privbase', 'kinds': ['forward_', 'asref_', 'layout_'], 'max_quick': 6, 'max_thorough': 16,
+             'fixed': [[8, 1, 0, 1, 1, 1], [8, 0, 1, 1, 0, 1], [8, 1, 1, 1, 1, 1], [8, 1, 0, 0, 1, 0]]}]
 EXPLANATION = ('Template t_inherit with impl blocks on the bases and on the derived type (public or private), one or two bases with or without '
                'vftables, name clashes between the bases\' functions and between base virtual functions and the derived table, and a '
                'second-level derived type.  For each leaf the solver shows that the path condition admits exactly one description; the '
@@ -28,8 +31,39 @@ def bounds(tier):
 
 
 def slices(tier, rng):
-    return [Slice('assoc-ps%d' % ps, 't_inherit', 17, lambda a, ps=ps: c06.assume(a, ps, 'assoc'), opts={'must_reach': ['ok']})
-            for ps in (4, 8)]
+    out = [Slice('assoc-ps%d' % ps, 't_inherit', 17, lambda a, ps=ps: c06.assume(a, ps, 'assoc'), opts={'must_reach': ['ok']})
+           for ps in (4, 8)]
+    out += [Slice('privbase-ps%d' % ps, 't_privbase', 6, lambda a, ps=ps: [a[0] == ps] + [z3.ULE(a[i], 1) for i in range(1, 6)] +
+                  [z3.Implies(a[3] == 0, z3.And(a[2] == 0, a[5] == 0))], opts={'must_reach': ['ok']}) for ps in (4, 8)]
+    return out
+
+
+def privbase_queries(a, leaf, py):
+    """every description of t_privbase is acceptable; D re-exposes k (and kb, g0 of the second base) as public forwarders whatever the
+    visibility of the base field, and the fields keep the declared visibility"""
+    if not is_ok(py): return [Query('private-base-field-description-accepted', z3.BoolVal(True))]
+    it = Item(items(py)['m::D'])
+    bad = []
+    fns = {f.name: f for f in it.functions}
+    def fwd(name, field, when):
+        f = fns.get(name)
+        if f is None or f.vis != 'pub' or tuple(f.body) != ('field', field, name): bad.append(when)
+    fwd('k', 'a', z3.BoolVal(True))
+    fwd('kb', 'b', a[3] != 0)
+    fwd('g0', 'b', z3.And(a[3] != 0, a[5] != 0))
+    n_exp = z3.If(a[3] != 0, z3.If(a[5] != 0, z3.BitVecVal(3, 64), z3.BitVecVal(2, 64)), z3.BitVecVal(1, 64))
+    bad.append(n_exp != len(it.functions))
+    regs = {r.name: r for r in it.regions}
+    for name, idx in (('a', 1), ('b', 2)):
+        r = regs.get(name)
+        if r is None:
+            if name == 'a': bad.append(z3.BoolVal(True))
+            else: bad.append(a[3] != 0)
+            continue
+        bad.append(z3.And(a[idx] != 0, z3.BoolVal(r.vis != 'priv')))
+        bad.append(z3.And(a[idx] == 0, z3.BoolVal(r.vis != 'pub')))
+        if not r.is_base: bad.append(z3.BoolVal(True))
+    return [Query('public-base-functions-re-exposed-through-private-base-fields', z3.Or(*bad))]
 
 
 def compare_assoc(py, M, out):
@@ -55,6 +89,7 @@ def compare_assoc(py, M, out):
 
 def leaf_queries(I, a, leaf, py, sl):
     if leaf.kind != 'ret': return [Query('no-%s' % leaf.kind, z3.BoolVal(True))]
+    if sl.template == 't_privbase': return privbase_queries(a, leaf, py)
     m = I.model
     if m is None:
         if I.solver.check() != z3.sat: return [Query('leaf-feasible', z3.BoolVal(True))]
@@ -80,4 +115,12 @@ def leaf_queries(I, a, leaf, py, sl):
 def region_env(a, sl): return {}
 
 
-def describe(template, args): return IS.describe(args)
+def describe(template, args):
+    if template == 't_privbase':
+        a = [int(x) for x in args]
+        return ('// pointer size %d\ntype A { %spub ax: *const u8 }  impl A { #[address(256)] pub fn k(&self) -> u32; }\n'
+                'type B { %spub bx: *const u8 }  impl B { #[address(512)] pub fn kb(&mut self); }\n'
+                'type D { #[base] %sa: A, %spub dx: *const u8 }') % (
+                    a[0], 'vftable { pub fn f0(&self); } ' if a[4] else '', 'vftable { pub fn g0(&self, x: u32) -> u32; } ' if a[5] else '',
+                    '' if a[1] else 'pub ', ('#[base] %sb: B, ' % ('' if a[2] else 'pub ')) if a[3] else '')
+    return IS.describe(args)
